@@ -6,12 +6,15 @@ import (
 	"sort"
 	"sync"
 
+	"github.com/gagliardetto/solana-go"
+	"github.com/ipfs/go-cid"
 	"github.com/rpcpool/yellowstone-faithful/gsfa"
 	"github.com/rpcpool/yellowstone-faithful/gsfa/linkedlog"
 	"github.com/rpcpool/yellowstone-faithful/indexes"
 	"github.com/rpcpool/yellowstone-faithful/ipld/ipldbindcode"
 	"github.com/rpcpool/yellowstone-faithful/iplddecoders"
 	"github.com/rpcpool/yellowstone-faithful/slottools"
+	"github.com/rpcpool/yellowstone-faithful/third_party/solana_proto/confirmed_block"
 	"github.com/sourcegraph/jsonrpc2"
 	"k8s.io/klog/v2"
 )
@@ -82,6 +85,80 @@ func (ser *MultiEpoch) getGsfaReadersInEpochDescendingOrderForSlotRange(ctx cont
 	return gsfaReaderMultiEpoch, epochNums
 }
 
+// dropGsfaIndexesAliasingAnotherAddress returns the given gsfa readers without those whose newest entry for pk
+// is a transaction that provably does not mention pk (i.e. the index lookup hit another address' list).
+func (multi *MultiEpoch) dropGsfaIndexesAliasingAnotherAddress(ctx context.Context, readers []*gsfa.GsfaReader, pk solana.PublicKey) []*gsfa.GsfaReader {
+	kept := make([]*gsfa.GsfaReader, 0, len(readers))
+	for _, reader := range readers {
+		epochNum, ok := reader.GetEpoch()
+		if !ok {
+			kept = append(kept, reader)
+			continue
+		}
+		locs, err := reader.Get(ctx, pk, 1)
+		if err != nil || len(locs) == 0 {
+			// not found (or unreadable): nothing to verify; the paging code handles it as before.
+			kept = append(kept, reader)
+			continue
+		}
+		epoch, err := multi.GetEpoch(epochNum)
+		if err != nil {
+			kept = append(kept, reader)
+			continue
+		}
+		raw, err := epoch.GetNodeByOffsetAndSize(ctx, nil, &indexes.OffsetAndSize{Offset: locs[0].Offset, Size: locs[0].Size})
+		if err != nil {
+			kept = append(kept, reader)
+			continue
+		}
+		decoded, err := iplddecoders.DecodeTransaction(raw)
+		if err != nil {
+			kept = append(kept, reader)
+			continue
+		}
+		if mentions, known := transactionMentionsAccount(decoded, epoch.GetDataFrameByCid, pk); known && !mentions {
+			klog.V(2).Infof("gsfa index of epoch %d: the entry for %s belongs to another address (hash alias); skipping this epoch", epochNum, pk)
+			continue
+		}
+		kept = append(kept, reader)
+	}
+	return kept
+}
+
+// transactionMentionsAccount tells whether pk is among the static or the loaded (address table) account keys
+// of the transaction. known is false when that cannot be established (e.g. loaded addresses are needed but the
+// metadata is missing or unparsable).
+func transactionMentionsAccount(
+	transactionNode *ipldbindcode.Transaction,
+	dataFrameGetter func(ctx context.Context, wantedCid cid.Cid) (*ipldbindcode.DataFrame, error),
+	pk solana.PublicKey,
+) (mentions bool, known bool) {
+	tx, meta, err := parseTransactionAndMetaFromNode(transactionNode, dataFrameGetter)
+	if err != nil || len(tx.Signatures) == 0 {
+		return false, false
+	}
+	for _, key := range tx.Message.AccountKeys {
+		if key == pk {
+			return true, true
+		}
+	}
+	if status, ok := meta.(*confirmed_block.TransactionStatusMeta); ok && status != nil {
+		for _, key := range byteSlicesToKeySlice(status.LoadedReadonlyAddresses) {
+			if key == pk {
+				return true, true
+			}
+		}
+		for _, key := range byteSlicesToKeySlice(status.LoadedWritableAddresses) {
+			if key == pk {
+				return true, true
+			}
+		}
+		return false, true
+	}
+	// no (protobuf) metadata: the static keys are all there is, unless the message loads addresses from tables.
+	return false, len(tx.Message.AddressTableLookups) == 0
+}
+
 func countTransactions(v gsfa.EpochToTransactionObjects) int {
 	var count int
 	for _, txs := range v {
@@ -113,6 +190,17 @@ func (multi *MultiEpoch) handleGetSignaturesForAddress(ctx context.Context, conn
 			Code:    jsonrpc2.CodeInternalError,
 			Message: "getSignaturesForAddress method is not enabled",
 		}, fmt.Errorf("no gsfa indexes found")
+	}
+
+	// The pubkey-to-offset index only stores a hash of the address, so an address that has NO history in an epoch
+	// can alias another address' list there. Leave out the epochs where that is the case.
+	gsfaIndexes = multi.dropGsfaIndexesAliasingAnotherAddress(ctx, gsfaIndexes, pk)
+	if len(gsfaIndexes) == 0 {
+		err = conn.ReplyRaw(ctx, req.ID, []map[string]any{})
+		if err != nil {
+			return nil, fmt.Errorf("failed to reply: %w", err)
+		}
+		return nil, nil
 	}
 
 	gsfaMulti, err := gsfa.NewGsfaReaderMultiepoch(gsfaIndexes)
